@@ -403,6 +403,23 @@ func (i *Instance) DeleteNode(nodeId string) {
 		panic(fmt.Errorf("no node exists with id %q", nodeId))
 	}
 
+	// A node that still feeds another node can't go: the other node would keep
+	// a connection to something that no longer has an ID. The graph would then
+	// be saved with a dependency on "" and that file can not be loaded again.
+	for n, id := range i.nodeIDs {
+		if n == nodeToDelete {
+			continue
+		}
+		for _, dep := range n.Dependencies() {
+			if dep.Dependency() == nodeToDelete {
+				panic(fmt.Errorf(
+					"node %q can not be deleted: it is connected to input %q of node %q",
+					nodeId, dep.Name(), id,
+				))
+			}
+		}
+	}
+
 	for filename, producer := range i.producers {
 		if i.nodeIDs[producer.Node()] == nodeId {
 			delete(i.producers, filename)
